@@ -28,8 +28,97 @@ Definition in_int64 (z : Z) : Prop := -9223372036854775808 <= z <= 9223372036854
 Definition int_cmp_trunc (a b : Z) : Z := wrap32 (wrap64 (a - b)).
 (* repaired code (808a1b4):  return a < b ? -1 : a > b ? 1 : 0; *)
 Definition int_cmp_3way (a b : Z) : Z := if a <? b then -1 else if b <? a then 1 else 0.
-(* which of the two the working tree has is re-read from the source on every run *)
-Definition int_cmp (a b : Z) : Z := if int_cmp_threeway then int_cmp_3way a b else int_cmp_trunc a b.
+(* ------------------------------------------------------------------ translated C expressions *)
+(* Int_Cmp, Float_Cmp and the six predicates of Cmp.c are not pattern-matched: tools/cx_translate.py
+   TRANSLATES their bodies (conditionals, comparisons, subtraction, (int) casts, if-return chains,
+   locals) into the expression language `cexp` of Generated.v; this is its semantics.  Operands are
+   scalars of one C type (int64_t or double), given by an algebra; C `int` values are Z. *)
+Record calg := {
+  cT : Type;
+  c_cmp : cT -> cT -> option comparison;     (* None = unordered (NaN): every test but != is false *)
+  c_sub : cT -> cT -> cT;
+  c_zero : cT;                               (* the int literal 0 converted to the operand type *)
+  c_cast32 : cT -> option Z                  (* (int) of an operand; None = not modelled *)
+}.
+
+Inductive cval (A : calg) := VOp (t : cT A) | VC (z : Z).
+Arguments VOp {A} t.
+Arguments VC {A} z.
+
+Definition cop_test (o : cop) (r : option comparison) : bool :=
+  match r with
+  | Some Lt => match o with OpLt | OpLe | OpNe => true | _ => false end
+  | Some Eq => match o with OpLe | OpEq | OpGe => true | _ => false end
+  | Some Gt => match o with OpGt | OpGe | OpNe => true | _ => false end
+  | None => match o with OpNe => true | _ => false end
+  end.
+Definition b2z (b : bool) : Z := if b then 1 else 0.
+
+Fixpoint ceval (A : calg) (env : list (cval A)) (e : cexp) : option (cval A) :=
+  match e with
+  | CVar n => nth_error env n
+  | CInt z => Some (VC z)
+  | CSub a b =>
+      match ceval A env a, ceval A env b with
+      | Some (VOp x), Some (VOp y) => Some (VOp (c_sub A x y))
+      | Some (VC x), Some (VC y) => Some (VC (wrap32 (x - y)))
+      | _, _ => None
+      end
+  | CCmp o a b =>
+      match ceval A env a, ceval A env b with
+      | Some (VOp x), Some (VOp y) => Some (VC (b2z (cop_test o (c_cmp A x y))))
+      | Some (VOp x), Some (VC 0) => Some (VC (b2z (cop_test o (c_cmp A x (c_zero A)))))
+      | Some (VC 0), Some (VOp y) => Some (VC (b2z (cop_test o (c_cmp A (c_zero A) y))))
+      | Some (VC x), Some (VC y) => Some (VC (b2z (cop_test o (Some (x ?= y)))))
+      | _, _ => None
+      end
+  | CCond c a b =>
+      match ceval A env c with
+      | Some (VC z) => if z =? 0 then ceval A env b else ceval A env a
+      | _ => None
+      end
+  | CNot a => match ceval A env a with Some (VC z) => Some (VC (b2z (z =? 0))) | _ => None end
+  | CAnd a b =>
+      match ceval A env a, ceval A env b with
+      | Some (VC x), Some (VC y) => Some (VC (b2z (negb (x =? 0) && negb (y =? 0))))
+      | _, _ => None
+      end
+  | COr a b =>
+      match ceval A env a, ceval A env b with
+      | Some (VC x), Some (VC y) => Some (VC (b2z (negb (x =? 0) || negb (y =? 0))))
+      | _, _ => None
+      end
+  | CCast32 a =>
+      match ceval A env a with
+      | Some (VC z) => Some (VC (wrap32 z))
+      | Some (VOp x) => option_map (@VC A) (c_cast32 A x)
+      | None => None
+      end
+  end.
+
+(* locals are evaluated in order and appended to the environment; the function returns a C int *)
+Fixpoint cbind (A : calg) (env : list (cval A)) (locals : list cexp) : option (list (cval A)) :=
+  match locals with
+  | [] => Some env
+  | l :: r => match ceval A env l with Some v => cbind A (env ++ [v]) r | None => None end
+  end.
+Definition crun (A : calg) (p : cprog) (x y : cT A) : option Z :=
+  match cbind A [VOp x; VOp y] (fst p) with
+  | Some env => match ceval A env (snd p) with Some (VC z) => Some z | _ => None end
+  | None => None
+  end.
+
+Definition int_alg : calg :=
+  {| cT := Z; c_cmp := fun x y => Some (x ?= y); c_sub := fun x y => wrap64 (x - y); c_zero := 0;
+     c_cast32 := fun x => Some (wrap32 x) |}.
+
+(* Int_Cmp: what the translated body of the working tree computes (None = outside the fragment: the
+   repaired three-way compare is assumed so that the model keeps running; the proof then breaks) *)
+Definition int_cmp (a b : Z) : Z :=
+  match int_cmp_code with
+  | Some p => match crun int_alg p a b with Some z => z | None => int_cmp_3way a b end
+  | None => int_cmp_3way a b
+  end.
 
 (* ------------------------------------------------------------------ Float *)
 (* binary64 with a single NaN (NaNs are outside the property) *)
@@ -42,8 +131,15 @@ Definition z_of_ocmp (o : option comparison) : Z :=
 (* double c = a - b;  return c > 0 ? 1 : c < 0 ? -1 : 0;
    (c > 0 and c < 0 are false when c is NaN: inf - inf) *)
 Definition float_cmp_sub (a b : bfloat) : Z := z_of_ocmp (Bcompare (float_sub a b) fzero).
-(* mutant shape, kept for a refutation:  return (int)c;  truncation toward zero loses |c| < 1 *)
-Definition float_cmp (a b : bfloat) : Z := float_cmp_sub a b.
+Definition float_alg : calg :=
+  {| cT := bfloat; c_cmp := fun x y => Bcompare x y; c_sub := float_sub; c_zero := fzero;
+     c_cast32 := fun _ => None |}.
+(* Float_Cmp: the translated body of the working tree *)
+Definition float_cmp (a b : bfloat) : Z :=
+  match float_cmp_code with
+  | Some p => match crun float_alg p a b with Some z => z | None => float_cmp_sub a b end
+  | None => float_cmp_sub a b
+  end.
 (* reference order on non-NaN floats: the IEEE-754 comparison itself *)
 Definition float_ord (a b : bfloat) : comparison :=
   match Bcompare a b with Some c => c | None => Eq end.
@@ -168,13 +264,33 @@ Fixpoint value_cmp (a b : value) {struct a} : option Z :=
                 | _ => None end
   end.
 
-(* the predicates of Cmp.c, as coded *)
-Definition v_eq  (a b : value) : option bool := option_map (fun c => c =? 0) (value_cmp a b).   (* cmp is 0 *)
-Definition v_neq (a b : value) : option bool := option_map negb (v_eq a b).                      (* not eq *)
-Definition v_gt  (a b : value) : option bool := option_map (fun c => 0 <? c) (value_cmp a b).    (* cmp > 0 *)
-Definition v_lt  (a b : value) : option bool := option_map (fun c => c <? 0) (value_cmp a b).    (* cmp < 0 *)
-Definition v_ge  (a b : value) : option bool := option_map negb (v_lt a b).                      (* not lt *)
-Definition v_le  (a b : value) : option bool := option_map negb (v_gt a b).                      (* not gt *)
+(* the predicates of Cmp.c: each body is translated (calls of another predicate inlined one level) into
+   an expression over r = cmp(self, obj) (slot 0) and the literal 0 (slot 1); order eq neq lt gt le ge *)
+Definition pred_run (i : nat) (c : Z) : option bool :=
+  match pred_codes with
+  | Some l =>
+      match nth_error l i with
+      | Some e => match ceval int_alg [@VOp int_alg c; @VOp int_alg 0] e with Some (VC z) => Some (negb (z =? 0)) | _ => None end
+      | None => None
+      end
+  | None => None
+  end.
+(* the documented definitions (used only where a body is outside the translated fragment) *)
+Definition pred_default (i : nat) (c : Z) : bool :=
+  match i with
+  | 0%nat => c =? 0 | 1%nat => negb (c =? 0) | 2%nat => c <? 0 | 3%nat => 0 <? c
+  | 4%nat => negb (0 <? c) | _ => negb (c <? 0)
+  end.
+Definition pred_val (i : nat) (c : Z) : bool :=
+  match pred_run i c with Some b => b | None => pred_default i c end.
+Definition v_eq  (a b : value) : option bool := option_map (pred_val 0) (value_cmp a b).
+Definition v_neq (a b : value) : option bool := option_map (pred_val 1) (value_cmp a b).
+Definition v_lt  (a b : value) : option bool := option_map (pred_val 2) (value_cmp a b).
+Definition v_gt  (a b : value) : option bool := option_map (pred_val 3) (value_cmp a b).
+Definition v_le  (a b : value) : option bool := option_map (pred_val 4) (value_cmp a b).
+Definition v_ge  (a b : value) : option bool := option_map (pred_val 5) (value_cmp a b).
+(* eq neq lt gt le ge of an operand pair, from the value cmp returns *)
+Definition preds_of (c : Z) : list bool := map (fun i => pred_val i c) [0; 1; 2; 3; 4; 5]%nat.
 
 (* ------------------------------------------------------------------ specification *)
 (* sorts = the domains on which the property speaks; sequences of one sort compare with each
@@ -408,7 +524,3 @@ Definition operand_cmp (a b : operand) : walk_out :=
       | _, _ => WRaise                      (* c_int / iter_init on the wrong class raise; Tree: not modelled *)
       end
   end.
-
-(* eq neq lt gt le ge as coded, from the value cmp returns *)
-Definition preds_of (c : Z) : list bool :=
-  [c =? 0; negb (c =? 0); c <? 0; 0 <? c; negb (0 <? c); negb (c <? 0)].
